@@ -380,6 +380,15 @@ func arithMain(mode string, a args) {
 				}
 			}
 			content := renderTokens(r, toks, r.Intn(5) == 0)
+			if r.Intn(8) == 0 && len(content) > 0 {
+				// a byte that looks like whitespace but is not the grammar's (VT, a CR that is not part of CR LF): ill-formed
+				k := r.Intn(len(content) + 1)
+				b := []byte{11, 13}[r.Intn(2)]
+				if b == 13 && k < len(content) && content[k] == 10 {
+					b = 11
+				}
+				content = append(append(append([]byte{}, content[:k]...), b), content[k:]...)
+			}
 			o.put(arithObserve(content, 1+r.Intn(20)))
 			made++
 		}
